@@ -384,7 +384,7 @@ func main() {
 	}
 	sort.Slice(regs, func(i, j int) bool { return regs[i].name < regs[j].name })
 	var b strings.Builder
-	b.WriteString("(* GENERATED by tools/srcfacts from the current Goit sources - do not edit *)\n")
+	b.WriteString("(* GENERATED by tools/srcfacts from the current Goit sources - do not edit.\n   One definition go_<name> per package-level regexp.MustCompile literal; Bridge.v proves each\n   equivalent to the pattern re_<name> of GoRegex.v the model and its theorems are written against. *)\n")
 	b.WriteString("From Coq Require Import Strings.Byte.\nFrom Coq Require Import List NArith.\nFrom Goit Require Import Bytes Regex.\nImport ListNotations.\n\n")
 	seen := map[string]bool{}
 	for _, r := range regs {
@@ -396,7 +396,7 @@ func main() {
 		if err != nil {
 			fail("regexp %s (%q) in %s: %v", r.name, r.pat, r.where, err)
 		}
-		fmt.Fprintf(&b, "(* %s: %s = %q *)\nDefinition re_%s : pattern :=\n  %s.\nDefinition src_%s : bytes := %s.\n\n", r.where, r.name, r.pat, r.name, c, r.name, coqBytes(r.pat))
+		fmt.Fprintf(&b, "(* %s: %s = %q *)\nDefinition go_%s : pattern :=\n  %s.\n\n", r.where, r.name, r.pat, r.name, c)
 	}
 	for _, s := range strsOut {
 		fmt.Fprintf(&b, "Definition src_%s : bytes := %s.\n", s.name, coqBytes(s.pat))
